@@ -2,6 +2,7 @@ package engnode
 
 import (
 	"context"
+	"github.com/drand/drand/v2/zzverif/emit"
 	"sync/atomic"
 	"time"
 
@@ -115,8 +116,13 @@ func (r *runner) totals() (int, int, int) {
 	return p, tot, len(sc)
 }
 
+// waitFor waits for cond. The node runs on a fake clock, so every wake-up is caused by the
+// harness: once no goroutine of the process is running or runnable (emit.Quiesce) and cond still
+// does not hold, it never will. The time limit only bounds pathological cases; it is generous
+// because on a loaded machine a runnable goroutine can wait for seconds before it is scheduled.
 func waitFor(cond func() bool, max time.Duration) bool {
-	deadline := time.Now().Add(max)
+	deadline := time.Now().Add(10 * max)
+	fast := time.Now().Add(25 * time.Millisecond) // the usual case: a matter of a millisecond
 	for {
 		if cond() {
 			return true
@@ -124,7 +130,13 @@ func waitFor(cond func() bool, max time.Duration) bool {
 		if time.Now().After(deadline) {
 			return false
 		}
-		time.Sleep(500 * time.Microsecond)
+		if time.Now().Before(fast) {
+			time.Sleep(300 * time.Microsecond)
+			continue
+		}
+		if emit.Quiesce(time.Until(deadline)) {
+			return cond()
+		}
 	}
 }
 
@@ -146,7 +158,7 @@ func (r *runner) drain() {
 func (r *runner) settle(expEmits int, expSync bool, sends0, syncs0 int) {
 	peers := r.w.H.VerifGroupLen() - 1
 	if r.stopped {
-		time.Sleep(2 * time.Millisecond)
+		emit.Quiesce(30 * time.Second)
 		return
 	}
 	if r.expDeclines > 0 {
@@ -173,23 +185,17 @@ func (r *runner) settle(expEmits int, expSync bool, sends0, syncs0 int) {
 			waitFor(func() bool { return r.w.Head() >= goal }, 4*time.Second)
 		}
 	}
-	// short stability window for anything the hints above do not cover (sync manager's peer loop)
-	win := 6 * time.Millisecond
+	// whatever the hints above do not cover (the sync manager's peer loop, a restarted handler's
+	// catch-up): wait until every goroutine has finished or blocked, and the counters stand still
+	win := 4 * time.Millisecond
 	if expSync {
-		win = 40 * time.Millisecond
+		win = 20 * time.Millisecond
 	}
-	lp, le, ls := r.totals()
-	since := time.Now()
-	deadline := time.Now().Add(5 * time.Second)
-	for time.Now().Before(deadline) {
-		time.Sleep(time.Millisecond)
-		p, e, s := r.totals()
-		if p != lp || e != le || s != ls {
-			lp, le, ls = p, e, s
-			since = time.Now()
-			continue
-		}
-		if time.Since(since) >= win {
+	for k := 0; k < 50; k++ {
+		lp, le, ls := r.totals()
+		time.Sleep(win)
+		emit.Quiesce(30 * time.Second)
+		if p, e, s := r.totals(); p == lp && e == le && s == ls {
 			break
 		}
 	}
